@@ -43,6 +43,8 @@ structure CacheSess where
   inBin : Nat := 0
   tsSum : Nat := 0
   vSum : Nat := 0
+  /-- `lines_to_skip`: source lines the last cached bucket already accounts for -/
+  skip : Nat := 0
 deriving Repr, DecidableEq, Inhabited
 
 /-- `ByteSeries` in memory -/
@@ -148,6 +150,7 @@ def rangeUpdate (r : Option (Nat × Nat)) (ts : Nat) : R (Option (Nat × Nat)) :
 
 /-- `DownSampledData::process` for the `Lin` resampler (timestamp sum u128 after the fix) -/
 def cacheProcess (st : Store) (c : CacheSess) (ts : Nat) (line : Bytes) : R (Store × CacheSess) :=
+  if c.skip > 0 then .ok (st, { c with skip := c.skip - 1 }) else
   let v := c.vSum + linDecode line
   if v ≥ 2^64 then .error .panic
   else
@@ -217,7 +220,7 @@ def feedCache (region : Bytes) (src : DataSess) (cb : Option Bool) (st : Store) 
 
 /-- `DownSampledData::create` -/
 def cacheCreate (dir : Dir) (B : Nat) (src : DataSess) (cb : Option Bool) : Dir × R CacheSess :=
-  let (st, rd) := dataNew (dir.cache B) src.p (toText src.p ++ cacheUserHeader B)
+  let (st, rd) := dataNew (dir.cache B) src.p (cacheUserHeader B)
   let dir := dir.setCache B st
   match rd with
   | .error f => (dir, .error f)
@@ -256,28 +259,24 @@ def cacheOpen (dir : Dir) (B : Nat) (src : DataSess) (cb : Option Bool) : Dir ×
     | .ok d =>
       match dataLenLines d, dataLenLines src with
       | .ok clen, .ok slen =>
-        let consumed := clen * B
-        if consumed > slen then
-          -- the cache ran ahead of a torn source: start it over
-          let stC : Store := { st with data := st.data.map (·.take d.hdrLen), index := st.index.map (·.take d.ihdrLen) }
-          let d0 : DataSess := { d with dataLen := 0, entries := [], lastFull := none, lastTime := none }
-          let c : CacheSess := { B := B, d := d0 }
-          match src.entries.head? with
-          | none => (dir.setCache B stC, .ok c)
-          | some first =>
-            let region := dir.main.region src.hdrLen
-            let (st', rc) := feedCache region src cb stC c (lineStart src.p 0) src.dataLen first.ts
-            (dir.setCache B st', rc)
+        -- repair::add_missing_data
+        let ahead := clen * B ≥ slen + B
+        let (st, d) : Store × DataSess :=
+          if ahead then
+            ({ st with data := st.data.map (·.take d.hdrLen), index := st.index.map (·.take d.ihdrLen) },
+             { d with dataLen := 0, entries := [], lastFull := none })
+          else (st, d)
+        let dir := dir.setCache B st
+        let accounted := if ahead then 0 else clen * B
+        if accounted ≥ slen then (dir, .ok { B := B, d := d, skip := accounted - slen })
         else
           let c : CacheSess := { B := B, d := d }
-          if consumed = slen then (dir, .ok c)
-          else
-            match lineOffset src consumed with
-            | none => (dir, .error .panic)
-            | some (start, full) =>
-              let region := dir.main.region src.hdrLen
-              let (st', rc) := feedCache region src cb st c start src.dataLen full
-              (dir.setCache B st', rc)
+          match lineOffset src accounted with
+          | none => (dir, .ok c)
+          | some (start, full) =>
+            let region := dir.main.region src.hdrLen
+            let (st', rc) := feedCache region src cb st c start src.dataLen full
+            (dir.setCache B st', rc)
       | .error f, _ => (dir, .error f)
       | _, .error f => (dir, .error f)
 
@@ -403,11 +402,11 @@ def selectLevel (s : Sess) (n : Nat) (sb eb : Bound) : R Nat :=
 
 /-- `read_n` (after the fixes: `n = 0` returns nothing; the ordering assert compares line counts) -/
 def apiReadN (dir : Dir) (s : Sess) (n : Nat) (sb eb : Bound) : R (List Entry) := do
-  if n = 0 then return []
   -- the ordering assert
   let lens ← (s.caches.mapM fun c => dataLenLines c.d)
   let sorted := (lens.zip (lens.drop 1)).all fun (a, b) => decide (a ≥ b)
   if !sorted then .error .panic
+  if n = 0 then return []
   let lvl ← selectLevel s n sb eb
   let (region, d) : Bytes × DataSess :=
     if lvl = 0 then (mainRegion dir s, s.d)
